@@ -55,6 +55,12 @@ func init() {
 			Quick: 60, Thorough: 2000})
 	}
 
+	machineByID[13] = func() Machine { return &jsonText{} }
+	registry["C18"] = append(registry["C18"], Suite{Name: "json-text", NewMachine: func() Machine { return &jsonText{} }, Gen: genJSONText,
+		Monitors: []Monitor{monitorJSONText}, OpName: jsonOpName,
+		Rule:  "the Export bytes of a structure of each of the ten kinds after a short history: (1) the model's print of the parsed token tree must be the bytes and the tree a well-formed object; (2) the prefixes encoding/json accepts must be those the model's scanner calls complete",
+		Quick: 80, Thorough: 1500})
+
 	for _, sg := range structGensRedis {
 		sg := sg
 		registry["C10"] = append(registry["C10"], Suite{Name: sg.name, NewMachine: sg.mk, Gen: genPersist(sg, "C10"),
